@@ -62,7 +62,7 @@ claimed = {
    note=NOTE_COMMON + "framing precondition of unmarshal (type byte and 24-bit length as readHandshake guarantees); hellos WITH extension blocks are covered in the forward direction and for totality only.",
    ref="section 6 C14"),
  "C15": dict(
-   text="Bounded symbolic execution of the real DTLCP write path (maxPayloadSizeForWrite, writeRecordLocked, encrypt, writeHandshakeRecord, write/flush): PMTU arbitrary in {0 = default 1400} u [96, 20000], payload length arbitrary (symbolic) in 1..maxPayload, cipher none / GCM / CBC: exactly one datagram, at most PMTU bytes, at most 16384 bytes of plaintext, header length consistent; Write of a longer buffer (PMTU 96..98) is split into datagrams that each fit, in order, with consecutive sequence numbers; a buffered handshake flight of 2..3 records: every datagram must fit the PMTU (fails: known finding K3); the buffer readDatagram offers holds the largest datagram the write path can emit (PMTU up to 40000).",
+   text="Bounded symbolic execution of the real DTLCP write path (maxPayloadSizeForWrite, writeRecordLocked, encrypt, writeHandshakeRecord, write/flush): PMTU arbitrary in {0 = default 1400} u [96, 20000], payload length arbitrary (symbolic) in 1..maxPayload, cipher none / GCM / CBC: exactly one datagram, at most PMTU bytes, at most 16384 bytes of plaintext, header length consistent; Write of a longer buffer (PMTU 96..98) is split into datagrams that each fit, in order, with consecutive sequence numbers; a buffered handshake flight of 2..3 records: every datagram fits the PMTU (K3, fixed); the buffer readDatagram offers holds the largest datagram the write path can emit (PMTU up to 40000).",
    note=NOTE_COMMON + "length-only cipher stubs (contents irrelevant); PMTU below 96 is outside (a CBC record cannot carry one byte below 77); the receive side (ReadFrom returns exactly the payload) is covered by the C16 connection harness for 1-byte payloads only.",
    ref="section 6 C15"),
  "C16": dict(
